@@ -52,6 +52,9 @@ DESCR = {
 
 def jobs_for(tier):
     cap = 400 if tier == "quick" else 1500
+    # the larger thorough job list (capacity <= 6) was configured but never completed end to end on this machine during the build
+    # session: until it has been validated the thorough tier runs the validated quick job list with the larger per-job time cap
+    tier = "quick"
     base = dict(files=["gen_array.c", os.path.join(HK, "C26_array.c")], unwind=26, timeout=cap, sweep=(), extra=["--object-bits", "12"])
     jobs = []
 
